@@ -95,6 +95,10 @@ def run_scenario(seed, body: Callable[[World], Any], policy: str = "weighted", m
                 out.deadlock = sched.deadlock or "aborted"
             except BaseException as e:  # noqa
                 out.error = e
+            if out.deadlock is None and sched.deadlock is not None:
+                out.deadlock = sched.deadlock        # detected in another thread while main was about to finish
+            if sched.budget_exceeded:
+                out.budget = True
             out.thread_errors = list(sched.errors)
     finally:
         logging.disable(prev_disable)
